@@ -57,6 +57,21 @@ def set_fields(msg, mid, st, n, opt):
                 setattr(msg.command_set, f, st)
 
 
+EXTRA_COMMENTS = [None, 'x', 'no such instance', u'Ger\xe4t gest\xf6rt', u'\u30a8\u30e9\u30fc']
+
+
+def add_extra(msg, sel):
+    """optional status-related elements an application adds to a response AFTER the message object was built, in
+    descending tag order: Error Comment (0000,0902) with ASCII / Latin-1 / non-Latin text, Offending Element
+    (0000,0901), Error ID (0000,0903) - PS3.7 C.x; they have to end up in ascending tag order and inside the group length"""
+    if not sel:
+        return
+    cs = msg.command_set
+    cs.ErrorID = 7
+    cs.ErrorComment = EXTRA_COMMENTS[sel]
+    cs.OffendingElement = [0x00100020]
+
+
 def sent_ok(assoc, cls, cid, expect_data, index=-1, mid=None):
     """The generator queued by the send number `index`: command fragments joined form a well-formed command group."""
     g = assoc.dul.sent[index]
@@ -110,6 +125,31 @@ def command_set_wellformed(mid: int, st: int, n: int, opt: bool, ds1: bool, tsi:
     a.send(msg, 3)
     ok = sent_ok(a, cls, 3, ds1)
     deep(ok and n == 3 and mid == 65535)
+    return ok
+
+
+RSP_CLASSES = [i for i, c in enumerate(MSG_CLASSES) if c.__name__.endswith('RSPMessage')]
+
+
+@cond(bounds='each of the 11 response classes with status-related elements added AFTER the message object was built, in '
+             'descending tag order (Error ID, Error Comment with ASCII / Latin-1 / Japanese text by symbolic selector, '
+             'Offending Element; PS3.7 Annex C): message id and status symbolic 0..65535, data set present / absent: the '
+             'transmitted command group is still well-formed (ascending tags, group length = octets following)',
+      family={'cls': RSP_CLASSES}, timeout=180)
+def extra_status_elements(mid: int, st: int, extra: int, ds1: bool) -> bool:
+    """
+    pre: 0 <= mid <= 65535 and 0 <= st <= 65535 and 1 <= extra <= 4
+    post: _
+    """
+    cls = MSG_CLASSES[fam('cls')]
+    msg = cls()
+    a = make_assoc(16384)
+    set_fields(msg, mid, st, 2, False)
+    add_extra(msg, pick(extra, 1, 4))
+    msg.data_set = DS1 if ds1 else None
+    a.send(msg, 3)
+    ok = sent_ok(a, cls, 3, ds1)
+    deep(ok and extra == 4)
     return ok
 
 
